@@ -463,6 +463,32 @@ def phasesOfRun (cfg : Cfg) (H : Hashes) (s : State) (p : Prompt) (zr yr : Resp)
     | .ret _, .exc => [.lookup p, .execCall, .assessCall, .agentRaised]
     | .ret z, .ret y => [.lookup p, .execCall, .assessCall, .finish p z y]
 
+/-! ### histories of a loop whose configuration attributes are re-assigned
+
+  `gate_logic`, `enable_cache`, `cache_ttl`, `enable_circuit_breaker`, `failure_threshold`, `recovery_timeout` are
+  plain public attributes: assigning one on a live loop replaces the configuration and keeps the state (breaker,
+  cache, counters) — nothing is re-validated, and the cache key does not contain the gate logic. -/
+
+inductive ROp where
+  | op (o : Op)
+  | assign (c : Cfg)
+
+/-- observation of a request together with the configuration in force when it was handled -/
+structure RObs where
+  cfg : Cfg
+  op : Op
+  out : Out
+
+def RObs.toObs (o : RObs) : Obs := ⟨o.op, o.out⟩
+
+def execR (H : Hashes) : Cfg → State → List ROp → State × List RObs
+  | _, s, [] => (s, [])
+  | _, s, .assign c :: rest => execR H c s rest
+  | cfg, s, .op o :: rest =>
+    let r := step cfg H s o
+    let t := execR H cfg r.1 rest
+    (t.1, ⟨cfg, o, r.2⟩ :: t.2)
+
 def idHashes : Hashes := ⟨id, id⟩
 
 /-- What the source translator (harness/vf/extract/py2lean_breaker.py) emits for a method that left its subset:
